@@ -79,6 +79,21 @@ def loop_spec(func_key, ordinal, inv=None, modifies=(), types=None, at_head=None
     _LOOP_SPECS[(func_key, ordinal)] = sp
 
 
+def replace_object(ns, old, new):
+    """a ghost view takes the place of a heap object: every local variable and every field of a local object that
+    referred to `old` now refers to `new` (aliases stay aliases)"""
+    sc = ns._scope
+    while sc is not None:
+        for k, v in list(sc.vars.items()):
+            if v is old:
+                sc.vars[k] = new
+            elif isinstance(v, VObj):
+                for fk, fv in list(v.fields.items()):
+                    if fv is old:
+                        v.fields[fk] = new
+        sc = sc.parent if sc.func is None else None
+
+
 def callback(fn):
     """a Python callable the code under contract may call (uninterpreted callback with ghost log)"""
     fn._pyvc_callback = True
@@ -541,6 +556,7 @@ def run_sym(h, case_d, timeout_ms=20000, max_paths=None):
     CTX.reset_all()
     CTX.start_sym(timeout_ms)
     _LEMMAS.clear()
+    _interp_mod.LOOP_HEADERS_SEEN.clear()
     res = HarnessResult(h.prop, h.name, repr(Case(case_d)))
     t0 = time.time()
     _CUR["prefix"] = "%s/%s[%s]/" % (h.prop, h.name, repr(Case(case_d)))
@@ -571,8 +587,9 @@ def run_sym(h, case_d, timeout_ms=20000, max_paths=None):
                 r = CTX.solver.check()
                 nm = _CUR["prefix"] + "no-unexpected-exception"
                 if r == z3.sat:
-                    CTX.obligs.append(Oblig(nm, "refuted", model=CTX.model_inputs(CTX.solver.model()),
-                                            path=CTX.paths, detail="unexpected %s: %s" % (type(p.exc).__name__, p.exc)))
+                    CTX.obligs.append(Oblig(nm, "refuted", model=CTX.model_inputs(CTX.solver.model()), path=CTX.paths,
+                                            detail=("imprecise: %s; " % CTX.imprecise if getattr(CTX, "imprecise", None) else "")
+                                            + "unexpected %s: %s" % (type(p.exc).__name__, p.exc)))
                 elif r == z3.unknown:
                     CTX.obligs.append(Oblig(nm, "unknown", path=CTX.paths, detail="unexpected %s" % type(p.exc).__name__))
             except OutOfSubset as e:
@@ -581,6 +598,13 @@ def run_sym(h, case_d, timeout_ms=20000, max_paths=None):
                 res.undecided.append("out of subset: %s" % e)
             except RecursionError:
                 res.undecided.append("interpreter recursion limit")
+            except Exception as e:
+                # the contract text itself failed on this code (an attribute it expects is gone, a value has another
+                # shape ...): the contract does not apply to the code as it is now -- undecided, never an alarm.  On
+                # the unchanged tree this shows up as baseline obligations that were not produced.
+                if os.environ.get("PYVC_DEBUG"):
+                    traceback.print_exc()
+                res.undecided.append("harness not applicable to this code: %s: %s" % (type(e).__name__, str(e)[:200]))
         finally:
             CTX.solver.pop()
         res.facts = max(res.facts, CTX.facts)
@@ -590,6 +614,7 @@ def run_sym(h, case_d, timeout_ms=20000, max_paths=None):
     for ob in CTX.obligs:
         res.obligs.append(ob.as_dict() | ({"smt2": ob.smt2} if ob.smt2 else {}))
     res.functions = dict(interp().functions_seen)
+    res.loop_headers = dict(_interp_mod.LOOP_HEADERS_SEEN)
     res.lemmas = sorted(_LEMMAS)
     res.secs = time.time() - t0
     return res
